@@ -137,35 +137,58 @@ def _is_step_collection(prog: Program, e: ast.expr):
 
 def cursor(prog: Program, rep: Report) -> None:
     rule = "R04.3"
-    up = prog.role_func("release", "update")
-    def has_release(n: ast.AST) -> bool:
-        return any(isinstance(c, ast.Call) and (unparse(c.func) in ("next", "self.__next__") or unparse(c.func).endswith(".append")) for c in ast.walk(n))
+    from ..program import inline_helpers
 
-    all_ifs = [n for n in walk_no_nested(up.node) if isinstance(n, ast.If)]
-    ifs = [n for n in all_ifs if has_release(n)]
-    # a release outside any trigger?
-    unguarded = [st for st in up.node.body if not isinstance(st, ast.If) and has_release(st)]
-    trig = xunparse(ifs[0].test, up.node) if ifs else ""
-    ok = len(ifs) == 1 and not unguarded and ifs[0] in up.node.body
-    what = ""
-    if ok:
-        t = expand_locals(ifs[0].test, up.node)
-        ok = isinstance(t, ast.Compare) and len(t.ops) == 1 and isinstance(t.ops[0], ast.In) and unparse(t.left) == "self.modules['time'].step"
-        if ok:
-            ok, what = _is_step_collection(prog, t.comparators[0])
-    rep.check(rule, up.qual, "release iff the current step is a release step", ok, what_bad=f"trigger {[xunparse(i.test, up.node) for i in ifs]} {what}; releases outside a trigger: {[short(u) for u in unguarded]}", what_ok=f"{trig}", loc=up.loc())
-    if ifs:
-        body = ifs[0].body
-        nexts = [n for s in body for n in ast.walk(s) if isinstance(n, ast.Call) and unparse(n.func) in ("next", "self.__next__")]
-        apps = [n for s in body for n in ast.walk(s) if isinstance(n, ast.Call) and unparse(n.func).endswith(".append")]
-        recs, env = sequential_expand(body)
-        ok = len(nexts) == 1 and len(apps) == 1 and unparse(apps[0].func) == "self.modules['state'].append" and not ifs[0].orelse
-        if ok:
-            star = [k.value for k in apps[0].keywords if k.arg is None]
-            src = unparse(env.get(star[0].id)) if len(star) == 1 and isinstance(star[0], ast.Name) and star[0].id in env else (unparse(star[0]) if len(star) == 1 else "")
-            ok = src in ("next(self)", "self.__next__()")
-        rep.check(rule, up.qual, "next(self) once, its rows appended to the state once", ok, what_bad=f"{len(nexts)} next call(s), appends {[short(a) for a in apps]}", what_ok="rows = next(self); state.append(**rows)", loc=up.loc())
-    nx = prog.role_func("release", "__next__")
+    up = inline_helpers(prog, prog.role_func("release", "update"))
+
+    def membership(test: ast.expr):
+        """test is `timer.step in <release steps>` (or `not in`) -> True / False (sense), else None."""
+        t = expand_locals(test, up.node)
+        neg = False
+        while isinstance(t, ast.UnaryOp) and isinstance(t.op, ast.Not):
+            t, neg = t.operand, not neg
+        if isinstance(t, ast.Compare) and len(t.ops) == 1 and isinstance(t.ops[0], (ast.In, ast.NotIn)) and unparse(t.left) == "self.modules['time'].step":
+            okc, _ = _is_step_collection(prog, t.comparators[0])
+            if okc:
+                return isinstance(t.ops[0], ast.In) != neg
+        return None
+
+    # path-wise: a path releases (next + append) exactly when its branch conditions say "step is a release step"
+    paths = enumerate_paths(up.node.body)
+    problems = []
+    n_rel = 0
+    for p in paths:
+        stmts = [s_[1] for s_ in p.steps if s_[0] == "stmt"]
+        nexts = [c for st in stmts for c in ast.walk(st) if isinstance(c, ast.Call) and unparse(c.func) in ("next", "self.__next__")]
+        apps = [c for st in stmts for c in ast.walk(st) if isinstance(c, ast.Call) and unparse(c.func).endswith(".append") and "state" in xunparse(c.func, up.node)]
+        known = [(membership(t), taken) for t, taken in p.conds()]
+        facts = {m == taken for m, taken in known if m is not None}  # {True}: is a release step, {False}: is not
+        unknown = [xunparse(t, up.node) for (t, taken), (m, _) in zip(p.conds(), known) if m is None]
+        releases = bool(nexts) or bool(apps)
+        if releases:
+            n_rel += 1
+            if facts != {True}:
+                problems.append(f"path {p.describe()} releases although its conditions do not establish `step in steps`")
+            if unknown:
+                problems.append(f"path {p.describe()} releases only under the further condition {unknown}")
+            # next once, appended once, the appended rows are the result of next
+            body = [st for st in stmts]
+            recs, env = sequential_expand(body)
+            okn = len(nexts) == 1 and len(apps) == 1 and xunparse(apps[0].func, up.node) == "self.modules['state'].append"
+            if okn:
+                star = [k.value for k in apps[0].keywords if k.arg is None]
+                src = unparse(env.get(star[0].id)) if len(star) == 1 and isinstance(star[0], ast.Name) and star[0].id in env else (unparse(star[0]) if len(star) == 1 else "")
+                okn = src in ("next(self)", "self.__next__()")
+            if not okn:
+                problems.append(f"path {p.describe()}: {len(nexts)} next call(s), appends {[short(a) for a in apps]}")
+        else:
+            if facts == {True} and p.exit != "raise":
+                problems.append(f"path {p.describe()} is taken at a release step but releases nothing")
+            if not facts and p.exit != "raise":
+                problems.append(f"path {p.describe()} never tests whether the step is a release step")
+    rep.check(rule, up.qual, "release iff the current step is a release step", not problems and n_rel >= 1, what_bad="; ".join(problems[:3]) or "no path of update releases", what_ok=f"{len(paths)} path(s), {n_rel} releasing", loc=up.loc())
+    rep.check(rule, up.qual, "next(self) once, its rows appended to the state once", not [q for q in problems if "next call" in q] and n_rel >= 1, what_bad="; ".join(q for q in problems if "next call" in q), what_ok="rows = next(self); state.append(**rows)", loc=up.loc())
+    nx = inline_helpers(prog, prog.role_func("release", "__next__"))
     paths = enumerate_paths(nx.node.body)
     for p in paths:
         incs = [s[1] for s in p.steps if s[0] == "stmt" and (increment_of(s[1]) or ("", 0))[0] == "self._index" or (s[0] == "stmt" and isinstance(s[1], (ast.Assign, ast.AugAssign)) and unparse(s[1].targets[0] if isinstance(s[1], ast.Assign) else s[1].target) == "self._index")]
@@ -185,7 +208,9 @@ def cursor(prog: Program, rep: Report) -> None:
 
 def multiplicity(prog: Program, rep: Report) -> None:
     rule = "R04.4"
-    nx = prog.role_func("release", "__next__")
+    from ..program import inline_helpers
+
+    nx = inline_helpers(prog, prog.role_func("release", "__next__"))
     recs, env = sequential_expand(nx.node.body)
     rets = [(st, v) for st, v in recs if isinstance(st, ast.Return)]
     ok_chain = False
@@ -209,11 +234,22 @@ def multiplicity(prog: Program, rep: Report) -> None:
     # the mult column is dropped from the returned frame after the repetition
     drops = [st for st, v in recs if isinstance(st, ast.Expr) and isinstance(st.value, ast.Call) and isinstance(st.value.func, ast.Attribute) and st.value.func.attr == "drop" and "'mult'" in unparse(st.value)]
     ok_drop = False
+    # names bound to the same frame object (V = repeated)
+    same = {frame_name} if frame_name else set()
+    grew = True
+    while grew:
+        grew = False
+        for n_ in walk_no_nested(nx.node):
+            if isinstance(n_, ast.Assign) and len(n_.targets) == 1 and isinstance(n_.targets[0], ast.Name) and isinstance(n_.value, ast.Name):
+                a_, b_ = n_.targets[0].id, n_.value.id
+                if (a_ in same) != (b_ in same):
+                    same |= {a_, b_}
+                    grew = True
     for d in drops:
         recv = unparse(d.value.func.value)
         inplace = any(k.arg == "inplace" and unparse(k.value) == "True" for k in d.value.keywords)
         after = any(st is d for st, _ in recs) and all(st.lineno < d.lineno for st, v in recs if isinstance(st, ast.Assign) and isinstance(st.targets[0], ast.Name) and st.targets[0].id == recv and v is not None and "repeat" in unparse(v))
-        ok_drop = ok_drop or (recv == frame_name and inplace and after)
+        ok_drop = ok_drop or (recv in same and inplace and after)
     if not ok_drop and len(rets) == 1:
         # functional form: frame = frame.drop(columns="mult") folded into the returned expression
         orig = rets[0][0].value
